@@ -258,6 +258,11 @@ def _returned_key_exprs(f: FuncInfo) -> List[ast.AST]:
     for n in walk_function_body(f.node):
         if isinstance(n, ast.Return) and n.value is not None:
             of_value(n.value)
+    # a returned local that is built in one expression (`x = OrderedDict([...]); return x`)
+    for n in walk_function_body(f.node):
+        if isinstance(n, ast.Assign) and len(n.targets) == 1 and isinstance(n.targets[0], ast.Name) and n.targets[0].id in names \
+                and not isinstance(n.value, ast.Name):
+            of_value(n.value)
     for n in walk_function_body(f.node):
         if isinstance(n, ast.Assign) and len(n.targets) == 1 and isinstance(n.targets[0], ast.Subscript) \
                 and isinstance(n.targets[0].value, ast.Name) and n.targets[0].value.id in names:
